@@ -1,6 +1,6 @@
 """C09 - crash faults: every allowed crash point is explored; crashed actors stay silent."""
 import c04
-from actor_rules import ACTIONS, ALL_HANDLERS, NS, PC, NextState, is_usize_from_id, noref
+from actor_rules import ACTIONS, ALL_HANDLERS, NS, PC, NextState, is_usize_from_id, noref, pc_calls
 from common import bodies_with_closures, outer_val
 from mir import AnchorMissing, V
 
@@ -56,7 +56,7 @@ def r2_crash_effects(ctx, F):
                       'keeps %s' % (what, {'timers-cancelled': 'its timers (they still fire)',
                                            'random-choices-cleared': 'pending random choices (they are still selected)',
                                            'flag-raised': 'running (it is not marked crashed)'}[what]))
-    hs = ns.calls_in('Crash', *ALL_HANDLERS) + ns.calls_in('Crash', 'ActorModel::process_commands')
+    hs = ns.calls_in('Crash', *ALL_HANDLERS) + pc_calls(F, b, ns.arm('Crash')[0])
     ctx.check(not hs, rule, 'crash-runs-no-actor-code', b,
               good='a Crash step runs no handler and applies no commands',
               bad='next_state: the Crash arm runs %s' % [h.short for h in hs])
@@ -98,7 +98,7 @@ def r3_silent(ctx, F):
                   'crashed[dst] test does not guard on_msg')
     # process_commands is reachable only from handler arms
     for v in ('Drop', 'Crash'):
-        pcs = ns.calls_in(v, 'ActorModel::process_commands')
+        pcs = pc_calls(F, b, ns.arm(v)[0])
         ctx.check(not pcs, rule, 'no-commands-in-%s' % v, b,
                   good='%s arm applies no commands' % v, bad='next_state: %s arm applies commands' % v)
 
